@@ -228,6 +228,7 @@ func (m *Module) signalMicroTask() (done func()) {
 func (m *Module) concludeMicroTask() {
 	// Finish for module.
 	atomic.AddInt32(m.microTaskCnt, -1)
+	verifPoint("modules.work.decremented", m.Name)
 	m.checkIfStopComplete()
 
 	// Finish and possibly trigger next task.
@@ -301,6 +302,7 @@ func microTaskScheduler() {
 			// Send clearance signal and increase task counter.
 			if clearanceSignal != nil {
 				close(clearanceSignal)
+				verifPoint("microtasks.sched.granted", "")
 				atomic.AddInt32(microTasks, 1)
 			}
 			clearanceSignal = nil
